@@ -17,7 +17,7 @@ CHOL_Q = ["to_dense", "cholesky", "cholesky_upper", "root", "root_cholesky", "ro
 EIG_Q = ["to_dense", "eigh", "root_symeig", "root_inv_symeig", "diagonalization", "solve", "diagonal", "eigvalsh"]
 CHOL_BUILDERS = ["DensePD", "KroneckerPD", "AddedDiag", "LowRankRootAddedDiag", "CholLower", "BatchRepeatPD", "Diag", "BlockDiag", "ConstantMulPos", "PsdSum"]
 EIG_BUILDERS = ["DenseEig", "KroneckerEig", "KroneckerAddedConstDiagEig"]
-DERIVE = ["add_jitter", "add_diagonal", "add_low_rank", "cat_rows", "getitem", "mT", "scale", "expand", "neg_scale"]
+DERIVE = ["add_jitter", "add_diagonal", "add_low_rank", "cat_rows", "cat_rows2", "getitem", "mT", "scale", "expand", "neg_scale"]
 PRIME = ["cholesky", "root", "root_inv", "solve", "logdet"]
 
 
@@ -45,7 +45,7 @@ def explore_opts(params, tier):
     # cat_rows builds its inverse root with stable_pinverse, which adds a 1e-6 jitter when |R_ii| < 1e-6: on that branch the exact
     # identity is off by design, below the replay tolerance -> such counterexamples are inconclusive, not engine errors
     return {"timeout_s": 2.0 if tier == "quick" else 60.0, "max_paths": 4, "norm_first": True, "path_budget_s": 90.0, "engine_opts": {"floor_cut": True},
-            "on_nonreplay": "inconclusive" if params.get("derive") == "cat_rows" else "error"}
+            "on_nonreplay": "inconclusive" if params.get("derive") in ("cat_rows", "cat_rows2") else "error"}
 
 
 def describe(tier):
@@ -159,6 +159,13 @@ def harness(ctx):
             new = cross @ torch.linalg.inv(ref) @ cross.mT + s
             full = torch.cat([torch.cat([ref, cross.mT], dim=-1), torch.cat([cross, new], dim=-1)], dim=-2)
             return op.cat_rows(cross, new), full
+        if d == "cat_rows2":
+            # two rows appended at once: the Schur complement root is a genuine 2x2 triangular factor
+            cross = ctx.leaf("argcross", bs + (2, N))
+            Ls = ctx.leaf("argLs", bs + (2, 2), tril=True, posdiag=True)
+            new = cross @ torch.linalg.inv(ref) @ cross.mT + Ls @ Ls.mT
+            full = torch.cat([torch.cat([ref, cross.mT], dim=-1), torch.cat([cross, new], dim=-1)], dim=-2)
+            return op.cat_rows(cross, new), full
         if d == "getitem":
             return op[..., :1, :1], ref[..., :1, :1]
         if d == "mT":
@@ -174,7 +181,7 @@ def harness(ctx):
 
     def chk():
         new_op, new_ref = derive()
-        if d == "cat_rows" and ctx.decided_true_in("stable_qr"):
+        if d in ("cat_rows", "cat_rows2") and ctx.decided_true_in("stable_qr"):
             return  # the near-singular branch of stable_qr (|R_ii| < 1e-6) adds a jitter by design: no exact identity there
         if isinstance(new_op, torch.Tensor):
             ctx.eq(new_op, new_ref, f"{d}:value")
